@@ -82,15 +82,30 @@ Fixpoint clash (p t : text) : bool :=
   end.
 Definition no_cont (s : text) : bool := clash kw_elif s && clash kw_else s && clash kw_except s.
 
-(* a statement text: stripped, non-empty, not a comment, and [strip_inline_comment] sees
-   all of it as code that ends outside any string (so a '#' appended after it is a comment) *)
-Definition code_clean (s : text) : bool :=
-  match sic_cut false false false (s ++ [ch_hash]) with
-  | Some p => text_eqb p s
-  | None => false
+Definition is_none {A} (o : option A) : bool := match o with None => true | Some _ => false end.
+
+(* the three flags of _strip_inline_comment after scanning t (no '#' cut on the way) *)
+Fixpoint sic_st (in_single in_double escaped : bool) (t : text) : bool * bool * bool :=
+  match t with
+  | [] => (in_single, in_double, escaped)
+  | c :: r =>
+    if escaped then sic_st in_single in_double false r
+    else if c =? ch_bslash then sic_st in_single in_double true r
+    else if (c =? ch_squote) && negb in_double then sic_st (negb in_single) in_double false r
+    else if (c =? ch_dquote) && negb in_single then sic_st in_single (negb in_double) false r
+    else sic_st in_single in_double false r
   end.
+
+(* [strip_inline_comment] sees all of s as code that ends outside any string literal (so a '#'
+   appended after it is a comment) *)
+Definition code_clean (s : text) : bool :=
+  is_none (sic_cut false false false s)
+  && match sic_st false false false s with (a, b, c) => negb a && negb b && negb c end.
+
+(* a statement text: non-empty, no blank at either end, not a comment, code_clean *)
 Definition stmt_ok (s : text) : bool :=
-  negb (is_nil s) && text_eqb (strip s) s && negb (starts_hash s) && code_clean s.
+  match s with c :: _ => negb (is_space c) && negb (c =? ch_hash) | [] => false end
+  && text_eqb (rstrip s) s && code_clean s.
 
 Inductive cstate := CNone | CIf | CTry.
 Definition is_cont (k : hkind) : bool := match k with KElif | KElse | KExcept => true | _ => false end.
@@ -105,7 +120,7 @@ Definition after_kind (k : hkind) : cstate :=
 Definition hdr_ok (k : hkind) (h : text) : bool :=
   match k with
   | KElif => re_elif h
-  | KElse => re_else h
+  | KElse => re_else h && negb (re_elif h)
   | KExcept => re_except h
   | _ => match classify h with
          | Some k' => match k, k' with
@@ -115,8 +130,6 @@ Definition hdr_ok (k : hkind) (h : text) : bool :=
          | None => false
          end && no_cont h
   end.
-
-Definition is_none {A} (o : option A) : bool := match o with None => true | Some _ => false end.
 
 Definition accepts_node (c : cstate) (n : ltree) : bool :=
   match n with LLeaf _ _ _ => true | LBlock _ k _ _ _ => accepts c k end.
